@@ -11,6 +11,7 @@
 #include "exact.h"
 #include <setjmp.h>
 #include <poll.h>
+#include <sys/time.h>
 using namespace verif;
 
 // ------------------------------------------------------------------ values
@@ -142,14 +143,14 @@ static std::string B(bool b)
 {
     return b ? "1" : "0";
 }
-static RCP<const Integer> I(CI a)
+static RCP<const Integer> IN(CI a)
 {
     return integer(a.v);
 }
 
 // ------------------------------------------------------------------ groups
 struct Out {
-    std::string desc, kinds, res, ref, skip;
+    std::string desc, kinds, tags, res, ref, skip; // kinds: operand size classes (description); tags: defect-relevant argument class (signature)
     bool nontriv = false;
 };
 enum { DESC = 0, EXEC = 1, REF = 2 };
@@ -173,7 +174,7 @@ static void tagskip(const std::string &t, Out &o)
     if (!t.empty() && t[0] == '!')
         o.skip = t.substr(1);
     else if (!t.empty())
-        o.kinds += "," + t;
+        o.tags = t;
 }
 static void add_un(const std::string &fn, const AV &X, F1 pre, F1 exec, F1 ref)
 {
@@ -257,7 +258,7 @@ static void add_items(const std::string &fn, std::shared_ptr<std::vector<Item>> 
         const Item &it = (*items)[k];
         if (mode == DESC) {
             o.desc = fn + "(" + it.desc + ")";
-            o.kinds = it.kind;
+            o.tags = it.kind;
             o.nontriv = it.nontriv;
         } else if (mode == EXEC)
             o.res = it.exec();
@@ -280,14 +281,31 @@ static void locate(long long i, const Group *&g, long long &k)
 static sigjmp_buf JB;
 static volatile sig_atomic_t ARMED = 0;
 static std::string GRES;
-static void on_fpe(int)
+static double CPU_LIMIT_S = 8; // per call, CPU time of the child (independent of machine load)
+static void on_fpe(int sig)
 {
     if (ARMED) {
         ARMED = 0;
-        siglongjmp(JB, 1);
+        siglongjmp(JB, sig == SIGVTALRM ? 2 : 1);
     }
+    if (sig == SIGVTALRM)
+        return;
     signal(SIGFPE, SIG_DFL);
     raise(SIGFPE);
+}
+static void set_cpu_timer(double s)
+{
+    struct itimerval it;
+    memset(&it, 0, sizeof it);
+    it.it_value.tv_sec = (long)s;
+    it.it_value.tv_usec = (long)((s - (long)s) * 1e6);
+    setitimer(ITIMER_VIRTUAL, &it, nullptr);
+}
+static double cpu_now()
+{
+    struct timespec ts;
+    clock_gettime(CLOCK_PROCESS_CPUTIME_ID, &ts);
+    return ts.tv_sec + 1e-9 * ts.tv_nsec;
 }
 static std::string clean(std::string s)
 {
@@ -302,8 +320,10 @@ static std::string guarded(const Group &g, long long k)
     g.f(k, DESC, d);
     if (!d.skip.empty())
         return "SKIP:" + d.skip;
-    if (sigsetjmp(JB, 1) == 0) {
+    int jr = sigsetjmp(JB, 1);
+    if (jr == 0) {
         ARMED = 1;
+        set_cpu_timer(CPU_LIMIT_S);
         try {
             Out o;
             g.f(k, EXEC, o);
@@ -318,7 +338,11 @@ static std::string guarded(const Group &g, long long k)
             GRES = "EXC:unknown";
         }
         ARMED = 0;
+        set_cpu_timer(0);
+    } else if (jr == 2) {
+        GRES = "TIMEOUT:cpu>" + std::to_string((int)CPU_LIMIT_S) + "s";
     } else {
+        set_cpu_timer(0);
         GRES = "SIGNAL:SIGFPE"; // GMP raises SIGFPE for division by zero / even root of a negative
     }
     return clean(GRES);
@@ -334,6 +358,8 @@ static int transcript_main(long long from, long long to, bool list_only)
     sa.sa_handler = on_fpe;
     sa.sa_flags = SA_NODEFER;
     sigaction(SIGFPE, &sa, nullptr);
+    sigaction(SIGVTALRM, &sa, nullptr);
+    const bool slowlog = getenv("C43_SLOW") != nullptr;
     if (to < 0 || to > NCALLS)
         to = NCALLS;
     for (long long i = std::max(0LL, from); i < to; i++) {
@@ -346,7 +372,10 @@ static int transcript_main(long long from, long long to, bool list_only)
             printf("%lld\t%s\t[%s]%s\n", i, clean(d.desc).c_str(), d.kinds.c_str(), d.skip.empty() ? "" : (" SKIP:" + d.skip).c_str());
             continue;
         }
+        double c0 = cpu_now();
         std::string r = guarded(*g, k);
+        if (slowlog && cpu_now() - c0 > 0.05)
+            fprintf(stderr, "SLOW %.2fs #%lld %s\n", cpu_now() - c0, i, clean(d.desc).substr(0, 150).c_str());
         printf("%lld\t%s\t%s\n", i, clean(d.desc).c_str(), r.c_str());
         fflush(stdout);
     }
@@ -356,7 +385,7 @@ static int transcript_main(long long from, long long to, bool list_only)
 // ------------------------------------------------------------------ running a sibling (comparison side)
 static std::vector<std::string> EXES, EXENAME;
 static std::string TIER = "quick";
-static double STALL_S = 40;
+static double STALL_S = 150; // wall-clock backstop; the child limits every call to CPU_LIMIT_S of CPU time
 
 static std::string signame(int s)
 {
@@ -459,7 +488,7 @@ static std::string rclass(const std::string &r) // coarse class of a result for 
         return "SIGFPE";
     if (r.rfind("CRASH", 0) == 0)
         return "crash";
-    if (r.rfind("HANG", 0) == 0)
+    if (r.rfind("HANG", 0) == 0 || r.rfind("TIMEOUT", 0) == 0)
         return "hang";
     if (r.rfind("EXIT", 0) == 0 || r.rfind("MACHINERY", 0) == 0)
         return "machinery";
@@ -512,8 +541,6 @@ int main(int argc, char **argv)
     TIER = opts().tier;
     bool thorough = opts().thorough();
     build_groups(thorough);
-    if (thorough)
-        STALL_S = 90;
     const char *ex = getenv("VERIF_EXES");
     if (!ex || !*ex) {
         fprintf(stderr, "C43: VERIF_EXES not set (run through bin/vcheck)\n");
@@ -609,7 +636,7 @@ int main(int argc, char **argv)
                 if (anybad)
                     c.count(8);
                 c.count(6);
-                std::string sig = g->fn + "(" + d.kinds + "):";
+                std::string sig = g->fn + "(" + d.tags + "):";
                 bool classes_same = true;
                 for (size_t e = 0; e < NB; e++)
                     if (rclass(res[e][i - a]) != rclass(r0))
@@ -633,7 +660,7 @@ int main(int argc, char **argv)
                     if (!r.ref.empty())
                         refs = "; direct GMP reference -> " + r.ref.substr(0, 300);
                 }
-                c.violation(sig, "call #" + std::to_string(i) + " " + mydesc + ": " + all + refs);
+                c.violation(sig, "call #" + std::to_string(i) + " " + mydesc + " [operand classes " + d.kinds + "]: " + all + refs);
                 continue;
             }
             if (exceptional)
@@ -647,7 +674,7 @@ int main(int argc, char **argv)
                         c.count(3);
                     else {
                         c.count(7);
-                        c.violation(g->fn + "(" + d.kinds + "):all-backends-differ-from-direct-GMP",
+                        c.violation(g->fn + "(" + d.tags + "):all-backends-differ-from-direct-GMP",
                                     "call #" + std::to_string(i) + " " + mydesc + ": " + all + "; direct GMP reference -> " + r.ref.substr(0, 300));
                     }
                 }
@@ -683,7 +710,8 @@ int main(int argc, char **argv)
 }
 
 // ------------------------------------------------------------------ the workload
-static AV A, Bt, Rt, NR, U, PR, KS, SH, PW, EXPI;
+static AV A, Bt, Rt, RP, NR, U, PR, KS, SH, PW, EXPI;
+static AV SM, SM2, ORD_A, ORD_N, NRM_A, NRM_N, NRM_M, PM_A, PM_M, LONGS, FACT, PRF;
 static std::vector<QV> QA;
 static std::vector<NV> NA, EA;
 
@@ -768,6 +796,44 @@ static void build_alphabets(bool T)
         for (const mpz_class &z : {zpow(2, 521), mpz_class(zpow(2, 521) - 1), zpow(10, 200), mpz_class(zpow(10, 200) + 1), zpow(5, 301),
                                    mpz_class(-zpow(5, 301)), zpow(12, 97), mpz_class(zpow(12, 97) + 12)})
             addu(Rt, z);
+    // perfect-power tests: boost's mp_perfect_power_p needs > 8 s of CPU for non-powers above ~200 bits (finding); keep a
+    // bounded number of such witnesses so that the tier completes
+    {
+        int slow = 0;
+        for (auto &x : Rt) {
+            size_t bits = mpz_sizeinbase(x.z.get_mpz_t(), 2);
+            bool pp = mpz_perfect_power_p(x.z.get_mpz_t()) != 0;
+            if (bits > 130 && !pp && ++slow > (T ? 4 : 2))
+                continue;
+            RP.push_back(x);
+        }
+    }
+    {
+        int slow = 0;
+        for (auto &x : Rt) {
+            size_t bits = mpz_sizeinbase(x.z.get_mpz_t(), 2);
+            bool pp = mpz_perfect_power_p(x.z.get_mpz_t()) != 0;
+            if (bits > 130 && !pp && ++slow > 1)
+                continue;
+            PRF.push_back(x);
+        }
+    }
+    SM = rng(-10, T ? 400 : 200);
+    SM2 = rng(-3, T ? 600 : 300);
+    for (const char *s : {"4294967297", "1000000007", "1000036000099", "999999999989", "600851475143"})
+        addu(SM2, Z(s));
+    FACT = rng(-30, T ? 600 : 300);
+    for (const char *s : {"4294967297", "-4294967297", "1000000007", "2147483647", "1000000000000", "600851475143", "100000000000000000000",
+                          "18446744073709551616", "10000000000000000000000000000000000000000", "18446744073709551615", "4295098369"})
+        addu(FACT, Z(s));
+    ORD_A = rng(-5, T ? 40 : 30);
+    ORD_N = rng(1, T ? 100 : 60);
+    NRM_A = rng(-3, T ? 16 : 12);
+    NRM_N = lst({"1", "2", "3", "4", "5", "6", "12"});
+    NRM_M = rng(-1, T ? 100 : 64);
+    PM_A = rng(-3, 10);
+    PM_M = rng(-5, T ? 64 : 40);
+    LONGS = lst({"0", "1", "-1", "2", "-2", "3", "6", "-6", "4", "9223372036854775807", "-9223372036854775807", "-9223372036854775808"});
     NR = lst({"0", "1", "2", "3", "4", "5", "7", "64", "100"});
     if (T)
         for (const char *s : {"6", "10", "13", "63", "65", "127", "1000"})
@@ -964,7 +1030,7 @@ static void groups_raw_arith()
                 return S(g);
             },
             [](CI a, CI b) { return fq(mpz_lcm, a, b); });
-    add_bin("mp_gcdext", A, A, nullptr,
+    add_bin("mp_gcdext", A, A, [](CI a, CI b) -> std::string { return a.z == 0 && b.z == 0 ? "both-zero" : ""; },
             [](CI a, CI b) {
                 integer_class g, s, t;
                 mp_gcdext(g, s, t, a.v, b.v);
@@ -1025,6 +1091,8 @@ static std::string powm_pre(CI a, CI e, CI m)
     }
     if (m.z < 0)
         t += (t.empty() ? "" : "+") + std::string("negmod");
+    if (a.z < 0)
+        t += (t.empty() ? "" : "+") + std::string("negbase");
     return t;
 }
 static std::string powm_ref(CI a, CI e, CI m)
@@ -1130,7 +1198,7 @@ static void groups_raw_pow()
                mpz_sqrtrem(r.get_mpz_t(), m.get_mpz_t(), a.z.get_mpz_t());
                return "root=" + zs(r) + " rem=" + zs(m);
            });
-    add_un("mp_perfect_power_p", Rt, nullptr, [](CI a) { return B(mp_perfect_power_p(a.v)); },
+    add_un("mp_perfect_power_p", RP, [](CI a) -> std::string { return mpz_sizeinbase(a.z.get_mpz_t(), 2) > 130 && !mpz_perfect_power_p(a.z.get_mpz_t()) ? "non-power>130bits" : ""; }, [](CI a) { return B(mp_perfect_power_p(a.v)); },
            [](CI a) { return B(mpz_perfect_power_p(a.z.get_mpz_t()) != 0); });
     add_un("mp_perfect_square_p", Rt, nullptr, [](CI a) { return B(mp_perfect_square_p(a.v)); },
            [](CI a) { return B(mpz_perfect_square_p(a.z.get_mpz_t()) != 0); });
@@ -1374,7 +1442,8 @@ static void groups_raw_rational()
         };
         GS.push_back(g);
     };
-    auto addq1 = [&](const std::string &fn, std::function<std::string(CQ)> ex, std::function<std::string(CQ)> rf) {
+    auto addq1 = [&](const std::string &fn, std::function<std::string(CQ)> ex, std::function<std::string(CQ)> rf,
+                     std::function<std::string(CQ)> pre = nullptr) {
         Group g;
         g.fn = fn;
         g.n = QA.size();
@@ -1385,6 +1454,7 @@ static void groups_raw_rational()
                 o.desc = fn + "(" + a.s + ")";
                 o.kinds = a.kind;
                 o.nontriv = a.multi;
+                tagskip(pre ? pre(a) : "", o);
             } else if (mode == EXEC)
                 o.res = ex(a);
             else if (rf)
@@ -1411,7 +1481,8 @@ static void groups_raw_rational()
           [](CQ a, CQ b) { return B(a.z < b.z) + B(a.z <= b.z) + B(a.z > b.z) + B(a.z >= b.z) + B(a.z == b.z) + B(a.z != b.z); });
     addq1("mq:canonical,sign,abs,neg", [](CQ a) { return S(a.v) + " " + std::to_string(mp_sign(a.v)) + " " + S(mp_abs(a.v)) + " " + S(rational_class(-a.v)); },
           [](CQ a) { return SQ(a.z) + " " + std::to_string(sgn(a.z)) + " " + SQ(abs(a.z)) + " " + SQ(mpq_class(-a.z)); });
-    addq1("mq:mp_get_d", [](CQ a) { return dhex(mp_get_d(a.v)); }, [](CQ a) { return dhex(a.z.get_d()); });
+    addq1("mq:mp_get_d", [](CQ a) { return dhex(mp_get_d(a.v)); }, [](CQ a) { return dhex(a.z.get_d()); },
+          [](CQ a) -> std::string { return mpq_class(a.z.get_d()) == a.z ? "exact" : "inexact"; });
     for (unsigned n : {0u, 1u, 2u, 5u})
         addq1("mq:mp_pow_ui(n=" + std::to_string(n) + ")",
               [n](CQ a) {
@@ -1420,6 +1491,856 @@ static void groups_raw_rational()
                   return S(r);
               },
               [n](CQ a) { return SQ(mpq_class(zpow(a.z.get_num(), n), zpow(a.z.get_den(), n))); });
+}
+static std::string zdiv_tag(CI, CI b)
+{
+    return b.z == 0 ? "zero-divisor" : "";
+}
+static void groups_public_integer()
+{
+    add_bin("Integer::divint", A, A, zdiv_tag, [](CI a, CI b) { return K(IN(a)->divint(*IN(b))); },
+            [](CI a, CI b) { return b.z == 0 ? std::string() : NK(mpq_class(a.z) / mpq_class(b.z)); });
+    add_bin("Integer::powint", A, EXPI,
+            [](CI a, CI e) -> std::string {
+                if (!e.z.fits_slong_p())
+                    return e.z > 0 ? "exp-too-large" : "negexp-too-large";
+                if (toobig(a, std::labs(e.sl)))
+                    return "!result-too-large";
+                return e.z < 0 ? (a.z == 0 ? "negexp,zero-base" : "negexp") : "";
+            },
+            [](CI a, CI e) { return K(IN(a)->powint(*IN(e))); },
+            [](CI a, CI e) {
+                if (!e.z.fits_slong_p() || (e.z < 0 && a.z == 0))
+                    return std::string();
+                mpz_class p = zpow(a.z, std::labs(e.sl));
+                return e.z >= 0 ? NK(mpq_class(p)) : NK(mpq_class(1) / mpq_class(p));
+            });
+    add_un("Integer::as_int,as_uint", A, [](CI a) -> std::string { return a.z.fits_slong_p() ? "" : "does-not-fit-long"; },
+           [](CI a) {
+               std::string o;
+               try {
+                   o += std::to_string(IN(a)->as_int());
+               } catch (SymEngineException &) {
+                   o += "throws";
+               }
+               try {
+                   o += " " + std::to_string(IN(a)->as_uint());
+               } catch (SymEngineException &) {
+                   o += " throws";
+               }
+               return o;
+           },
+           [](CI a) {
+               return (a.z.fits_slong_p() ? std::to_string(a.z.get_si()) : std::string("throws")) + " "
+                      + (a.z.fits_ulong_p() ? std::to_string(a.z.get_ui()) : std::string("throws"));
+           });
+    add_un("Integer::predicates,neg,str", A, nullptr,
+           [](CI a) {
+               auto i = IN(a);
+               return B(i->is_zero()) + B(i->is_one()) + B(i->is_minus_one()) + B(i->is_positive()) + B(i->is_negative()) + " " + K(i->neg()) + " "
+                      + i->__str__() + " " + K(iabs(*i));
+           },
+           [](CI a) {
+               return B(a.z == 0) + B(a.z == 1) + B(a.z == -1) + B(a.z > 0) + B(a.z < 0) + " I:" + zs(-a.z) + " " + zs(a.z) + " I:" + zs(abs(a.z));
+           });
+    add_bin("Integer::compare,__eq__", A, A, nullptr, [](CI a, CI b) { return std::to_string(IN(a)->compare(*IN(b))) + B(IN(a)->__eq__(*IN(b))); },
+            [](CI a, CI b) { return std::to_string((a.z > b.z) - (a.z < b.z)) + B(a.z == b.z); });
+    add_un("isqrt", Rt, [](CI a) -> std::string { return a.z < 0 ? "negative" : ""; }, [](CI a) { return K(isqrt(*IN(a))); },
+           [](CI a) {
+               if (a.z < 0)
+                   return std::string();
+               mpz_class r;
+               mpz_sqrt(r.get_mpz_t(), a.z.get_mpz_t());
+               return "I:" + zs(r);
+           });
+    add_bin("i_nth_root", Rt, NR,
+            [](CI a, CI n) -> std::string { return n.z == 0 ? "n=0" : (a.z < 0 && n.sl % 2 == 0) ? "even-root-of-negative" : ""; },
+            [](CI a, CI n) {
+                RCP<const Integer> r;
+                int ex = i_nth_root(outArg(r), *IN(a), (unsigned long)n.sl);
+                return B(ex != 0) + " " + K(r);
+            },
+            [](CI a, CI n) {
+                if (n.z == 0 || (a.z < 0 && n.sl % 2 == 0))
+                    return std::string();
+                mpz_class r;
+                int ex = mpz_root(r.get_mpz_t(), a.z.get_mpz_t(), n.sl);
+                return B(ex != 0) + " I:" + zs(r);
+            });
+    add_un("perfect_square", Rt, nullptr, [](CI a) { return B(perfect_square(*IN(a))); },
+           [](CI a) { return B(mpz_perfect_square_p(a.z.get_mpz_t()) != 0); });
+    add_un("perfect_power", PRF, [](CI a) -> std::string { return mpz_sizeinbase(a.z.get_mpz_t(), 2) > 130 && !mpz_perfect_power_p(a.z.get_mpz_t()) ? "non-power>130bits" : ""; },
+           [](CI a) { return B(perfect_power(*IN(a))); }, [](CI a) { return B(mpz_perfect_power_p(a.z.get_mpz_t()) != 0); });
+    add_bin("Rational::from_two_ints(Integer,Integer)", A, A, zdiv_tag, [](CI a, CI b) { return K(Rational::from_two_ints(*IN(a), *IN(b))); },
+            [](CI a, CI b) { return b.z == 0 ? std::string() : NK(mpq_class(a.z) / mpq_class(b.z)); });
+    add_bin("Rational::from_two_ints(long,long)", LONGS, LONGS,
+            [](CI a, CI b) -> std::string { return b.z == 0 ? "zero-divisor" : (a.sl == LONG_MIN || b.sl == LONG_MIN) ? "LONG_MIN" : ""; },
+            [](CI a, CI b) { return K(Rational::from_two_ints(a.sl, b.sl)); },
+            [](CI a, CI b) { return b.z == 0 ? std::string() : NK(mpq_class(a.z) / mpq_class(b.z)); });
+}
+static void groups_public_ntheory()
+{
+    add_bin("gcd", A, A, nullptr, [](CI a, CI b) { return K(gcd(*IN(a), *IN(b))); }, [](CI a, CI b) { return "I:" + fq(mpz_gcd, a, b); });
+    add_bin("lcm", A, A, nullptr, [](CI a, CI b) { return K(lcm(*IN(a), *IN(b))); }, [](CI a, CI b) { return "I:" + fq(mpz_lcm, a, b); });
+    add_bin("gcd_ext", A, A, [](CI a, CI b) -> std::string { return a.z == 0 && b.z == 0 ? "both-zero" : ""; },
+            [](CI a, CI b) {
+                RCP<const Integer> g, s, t;
+                gcd_ext(outArg(g), outArg(s), outArg(t), *IN(a), *IN(b));
+                return K(g) + " " + K(s) + " " + K(t);
+            },
+            [](CI a, CI b) {
+                mpz_class g, s, t;
+                mpz_gcdext(g.get_mpz_t(), s.get_mpz_t(), t.get_mpz_t(), a.z.get_mpz_t(), b.z.get_mpz_t());
+                return "I:" + zs(g) + " I:" + zs(s) + " I:" + zs(t);
+            });
+    auto noz = [](F2 f) { return [f](CI a, CI b) { return b.z == 0 ? std::string() : f(a, b); }; };
+    add_bin("mod", A, A, zdiv_tag, [](CI a, CI b) { return K(mod(*IN(a), *IN(b))); }, noz([](CI a, CI b) { return "I:" + fq(mpz_tdiv_r, a, b); }));
+    add_bin("quotient", A, A, zdiv_tag, [](CI a, CI b) { return K(quotient(*IN(a), *IN(b))); },
+            noz([](CI a, CI b) { return "I:" + fq(mpz_tdiv_q, a, b); }));
+    add_bin("quotient_mod", A, A, zdiv_tag,
+            [](CI a, CI b) {
+                RCP<const Integer> q, r;
+                quotient_mod(outArg(q), outArg(r), *IN(a), *IN(b));
+                return K(q) + " " + K(r);
+            },
+            noz([](CI a, CI b) { return "I:" + fq(mpz_tdiv_q, a, b) + " I:" + fq(mpz_tdiv_r, a, b); }));
+    add_bin("mod_f", A, A, zdiv_tag, [](CI a, CI b) { return K(mod_f(*IN(a), *IN(b))); }, noz([](CI a, CI b) { return "I:" + fq(mpz_fdiv_r, a, b); }));
+    add_bin("quotient_f", A, A, zdiv_tag, [](CI a, CI b) { return K(quotient_f(*IN(a), *IN(b))); },
+            noz([](CI a, CI b) { return "I:" + fq(mpz_fdiv_q, a, b); }));
+    add_bin("quotient_mod_f", A, A, zdiv_tag,
+            [](CI a, CI b) {
+                RCP<const Integer> q, r;
+                quotient_mod_f(outArg(q), outArg(r), *IN(a), *IN(b));
+                return K(q) + " " + K(r);
+            },
+            noz([](CI a, CI b) { return "I:" + fq(mpz_fdiv_q, a, b) + " I:" + fq(mpz_fdiv_r, a, b); }));
+    add_bin("mod_inverse", A, A, [](CI, CI m) -> std::string { return m.z == 0 ? "zero-modulus" : ""; },
+            [](CI a, CI m) {
+                RCP<const Integer> r;
+                int ok = mod_inverse(outArg(r), *IN(a), *IN(m));
+                return ok ? "1 " + K(r) : std::string("0"); // the output is undefined when no inverse exists
+            },
+            noz([](CI a, CI m) {
+                mpz_class r;
+                int ok = mpz_invert(r.get_mpz_t(), a.z.get_mpz_t(), m.z.get_mpz_t());
+                return ok ? "1 I:" + zs(r) : std::string("0");
+            }));
+    add_bin("divides", A, A, zdiv_tag, [](CI a, CI b) { return B(divides(*IN(a), *IN(b))); },
+            [](CI a, CI b) { return B(mpz_divisible_p(a.z.get_mpz_t(), b.z.get_mpz_t()) != 0); });
+    add_bin("legendre", A, A, [](CI, CI n) -> std::string { return is_odd_prime(n.z) ? "" : "n-not-odd-prime"; },
+            [](CI a, CI n) { return std::to_string(legendre(*IN(a), *IN(n))); },
+            [](CI a, CI n) { return is_odd_prime(n.z) ? std::to_string(mpz_legendre(a.z.get_mpz_t(), n.z.get_mpz_t())) : std::string(); });
+    add_bin("jacobi", A, A, [](CI, CI n) -> std::string { return n.z <= 0 ? "n-not-positive" : mpz_even_p(n.z.get_mpz_t()) ? "n-even" : ""; },
+            [](CI a, CI n) { return std::to_string(jacobi(*IN(a), *IN(n))); },
+            [](CI a, CI n) { return (n.z <= 0 || mpz_even_p(n.z.get_mpz_t())) ? std::string() : std::to_string(mpz_jacobi(a.z.get_mpz_t(), n.z.get_mpz_t())); });
+    add_bin("kronecker", A, A, [](CI, CI n) -> std::string { return n.z == 0 ? "n=0" : ""; },
+            [](CI a, CI n) { return std::to_string(kronecker(*IN(a), *IN(n))); },
+            [](CI a, CI n) { return std::to_string(mpz_kronecker(a.z.get_mpz_t(), n.z.get_mpz_t())); });
+    add_un("probab_prime_p(nonzero)", Rt, [](CI a) -> std::string { return a.z < 0 ? "neg" : ""; },
+           [](CI a) { return B(probab_prime_p(*IN(a)) != 0); }, [](CI a) { return B(mpz_probab_prime_p(a.z.get_mpz_t(), 25) != 0); });
+    add_un("probab_prime_p(return-code)", Rt, [](CI a) -> std::string {
+        int r = mpz_probab_prime_p(a.z.get_mpz_t(), 25);
+        return std::string(a.z < 0 ? "neg," : "") + (r == 2 ? "certainly-prime" : r == 1 ? "probably-prime" : "composite");
+    },
+           [](CI a) { return std::to_string(probab_prime_p(*IN(a))); }, nullptr);
+    add_un("nextprime", A, nullptr, [](CI a) { return K(nextprime(*IN(a))); },
+           [](CI a) {
+               mpz_class r;
+               mpz_nextprime(r.get_mpz_t(), a.z.get_mpz_t());
+               return "I:" + zs(r);
+           });
+    add_un("fibonacci,fibonacci2,lucas", U, nullptr,
+           [](CI n) {
+               RCP<const Integer> g, s;
+               fibonacci2(outArg(g), outArg(s), n.sl);
+               return K(fibonacci(n.sl)) + " " + K(g) + " " + K(s) + " " + K(lucas(n.sl));
+           },
+           [](CI n) {
+               mpz_class f, f1, l;
+               mpz_fib2_ui(f.get_mpz_t(), f1.get_mpz_t(), n.sl);
+               mpz_lucnum_ui(l.get_mpz_t(), n.sl);
+               return "I:" + zs(f) + " I:" + zs(f) + " I:" + zs(f1) + " I:" + zs(l);
+           });
+    add_un("lucas2", U, [](CI n) -> std::string { return n.z == 0 ? "n=0" : ""; },
+           [](CI n) {
+               RCP<const Integer> g, s;
+               lucas2(outArg(g), outArg(s), n.sl);
+               return K(g) + " " + K(s);
+           },
+           [](CI n) {
+               mpz_class l, l1;
+               mpz_lucnum2_ui(l.get_mpz_t(), l1.get_mpz_t(), n.sl);
+               return "I:" + zs(l) + " I:" + zs(l1);
+           });
+    add_un("factorial", U, nullptr, [](CI n) { return K(factorial(n.sl)); },
+           [](CI n) {
+               mpz_class r;
+               mpz_fac_ui(r.get_mpz_t(), n.sl);
+               return "I:" + zs(r);
+           });
+    add_bin("binomial", A, KS, [](CI a, CI) -> std::string { return a.z < 0 ? "neg-n" : ""; }, [](CI a, CI k) { return K(binomial(*IN(a), k.sl)); },
+            [](CI a, CI k) {
+                mpz_class r;
+                mpz_bin_ui(r.get_mpz_t(), a.z.get_mpz_t(), k.sl);
+                return "I:" + zs(r);
+            });
+    // crt over all (r1,r2) x (m1,m2)
+    {
+        static AV CR = lst({"0", "1", "2", "5", "-1", "100000000000000000000"}), CM = lst({"2", "3", "4", "6", "-5", "18446744073709551617"});
+        Group g;
+        g.fn = "crt";
+        g.n = 36 * 36;
+        g.has_ref = true;
+        g.f = [](long long k, int mode, Out &o) {
+            CI r1 = CR[k / 216], r2 = CR[(k / 36) % 6], m1 = CM[(k / 6) % 6], m2 = CM[k % 6];
+            if (mode == DESC) {
+                o.desc = "crt(rem=[" + r1.s + "," + r2.s + "], mod=[" + m1.s + "," + m2.s + "])";
+                o.kinds = r1.kind + "," + r2.kind + "," + m1.kind + "," + m2.kind;
+                o.nontriv = r1.multi || r2.multi || m1.multi || m2.multi;
+                if (m1.z < 0 || m2.z < 0)
+                    o.tags = "negative-modulus";
+            } else if (mode == EXEC) {
+                RCP<const Integer> R;
+                bool ok = crt(outArg(R), {IN(r1), IN(r2)}, {IN(m1), IN(m2)});
+                o.res = ok ? "1 " + K(R) : "0";
+            } else {
+                if (m1.z < 0 || m2.z < 0)
+                    return;
+                mpz_class L, g;
+                mpz_lcm(L.get_mpz_t(), m1.z.get_mpz_t(), m2.z.get_mpz_t());
+                mpz_gcd(g.get_mpz_t(), m1.z.get_mpz_t(), m2.z.get_mpz_t());
+                // brute force is impossible for the big modulus; verify by search over r1 + k*m1 when small, else by formula
+                if ((r2.z - r1.z) % g != 0) {
+                    o.ref = "0";
+                    return;
+                }
+                mpz_class inv, m1g = m1.z / g, m2g = m2.z / g;
+                if (m2g == 1)
+                    inv = 0;
+                else
+                    mpz_invert(inv.get_mpz_t(), m1g.get_mpz_t(), m2g.get_mpz_t());
+                mpz_class x = r1.z + m1.z * (((r2.z - r1.z) / g * inv) % m2g);
+                mpz_fdiv_r(x.get_mpz_t(), x.get_mpz_t(), L.get_mpz_t());
+                o.ref = "1 I:" + zs(x);
+            }
+        };
+        GS.push_back(g);
+    }
+    auto small_tag = [](CI a) -> std::string { return a.z < 0 ? "neg" : a.z == 0 ? "zero" : ""; };
+    add_un("prime_factors", FACT, small_tag,
+           [](CI a) {
+               std::vector<RCP<const Integer>> v;
+               prime_factors(v, *IN(a));
+               std::string o;
+               for (auto &p : v)
+                   o += K(p) + " ";
+               return o;
+           },
+           nullptr);
+    add_un("prime_factor_multiplicities", FACT, small_tag,
+           [](CI a) {
+               map_integer_uint m;
+               prime_factor_multiplicities(m, *IN(a));
+               std::string o;
+               for (auto &p : m)
+                   o += K(p.first) + "^" + std::to_string(p.second) + " ";
+               return o;
+           },
+           [](CI a) -> std::string {
+               mpz_class n = abs(a.z);
+               if (n == 0)
+                   return "";
+               if (n > mpz_class("1000000000000"))
+                   return std::string();
+               std::string o;
+               for (mpz_class p = 2; p * p <= n; p++) {
+                   unsigned c = 0;
+                   while (n % p == 0) {
+                       n /= p;
+                       c++;
+                   }
+                   if (c)
+                       o += "I:" + zs(p) + "^" + std::to_string(c) + " ";
+               }
+               if (n > 1)
+                   o += "I:" + zs(n) + "^1 ";
+               return o;
+           });
+    add_un("factor,factor_trial_division", SM2, small_tag,
+           [](CI a) {
+               RCP<const Integer> f = integer(0), f2 = integer(0);
+               int r = factor(outArg(f), *IN(a));
+               int r2 = factor_trial_division(outArg(f2), *IN(a));
+               return std::to_string(r) + (r ? " " + K(f) : "") + " " + std::to_string(r2) + (r2 ? " " + K(f2) : "");
+           },
+           nullptr);
+    add_un("factor_lehman_method", SM2, [](CI a) -> std::string { return a.z < 21 ? "n<21" : ""; },
+           [](CI a) {
+               RCP<const Integer> f;
+               int r = factor_lehman_method(outArg(f), *IN(a));
+               return std::to_string(r) + " " + K(f);
+           },
+           nullptr);
+    add_un("primitive_root", SM, small_tag,
+           [](CI a) {
+               RCP<const Integer> g;
+               bool ok = primitive_root(outArg(g), *IN(a));
+               return ok ? "1 " + K(g) : std::string("0");
+           },
+           nullptr);
+    add_un("primitive_root_list", SM, small_tag,
+           [](CI a) {
+               if (std::labs(a.sl) > 120)
+                   return std::string("not-driven");
+               std::vector<RCP<const Integer>> v;
+               primitive_root_list(v, *IN(a));
+               std::string o;
+               for (auto &p : v)
+                   o += K(p) + " ";
+               return o;
+           },
+           nullptr);
+    add_un("totient,carmichael", FACT, small_tag, [](CI a) { return K(totient(IN(a))) + " " + K(carmichael(IN(a))); },
+           [](CI a) -> std::string {
+               mpz_class n = abs(a.z);
+               if (n == 0 || n > 5000)
+                   return n == 0 ? "I:1 I:1" : "";
+               long N = n.get_si(), phi = 0, lam = 1;
+               for (long k = 1; k <= N; k++)
+                   if (std::gcd(k, N) == 1)
+                       phi++;
+               for (long k = 1; k <= N; k++) // lambda = lcm of the orders of all units
+                   if (std::gcd(k, N) == 1) {
+                       long r = k % N, e = 1;
+                       while (r != 1 % N) {
+                           r = r * k % N;
+                           e++;
+                       }
+                       lam = std::lcm(lam, e);
+                   }
+               return "I:" + std::to_string(phi) + " I:" + std::to_string(lam);
+           });
+    add_bin("multiplicative_order", ORD_A, ORD_N, nullptr,
+            [](CI a, CI n) {
+                RCP<const Integer> o;
+                bool ok = multiplicative_order(outArg(o), IN(a), IN(n));
+                return ok ? "1 " + K(o) : std::string("0");
+            },
+            [](CI a, CI n) -> std::string {
+                long N = std::labs(n.sl), A_ = ((a.sl % N) + N) % N;
+                if (std::gcd(A_, N) != 1)
+                    return "0";
+                long r = 1 % N, e = 0;
+                do {
+                    r = r * A_ % N;
+                    e++;
+                } while (r != 1 % N);
+                return "1 I:" + std::to_string(e);
+            });
+    add_tri("nthroot_mod", NRM_A, NRM_N, NRM_M, [](CI, CI, CI m) -> std::string { return m.z <= 0 ? "m<=0" : ""; },
+            [](CI a, CI n, CI m) {
+                RCP<const Integer> r;
+                bool ok = nthroot_mod(outArg(r), IN(a), IN(n), IN(m));
+                if (!ok)
+                    return std::string("0");
+                // any root is acceptable mathematically; the transcript still records which one was returned
+                return "1 " + K(r);
+            },
+            nullptr);
+    add_tri("nthroot_mod_list", NRM_A, NRM_N, NRM_M, [](CI, CI, CI m) -> std::string { return m.z <= 0 ? "m<=0" : ""; },
+            [](CI a, CI n, CI m) {
+                std::vector<RCP<const Integer>> v;
+                nthroot_mod_list(v, IN(a), IN(n), IN(m));
+                std::string o;
+                for (auto &p : v)
+                    o += S(p->as_integer_class()) + " ";
+                return o;
+            },
+            [](CI a, CI n, CI m) -> std::string {
+                if (m.z <= 0)
+                    return "";
+                long M = m.sl;
+                std::string o;
+                for (long x = 0; x < M; x++) {
+                    long r = 1 % M;
+                    for (long e = 0; e < n.sl; e++)
+                        r = r * x % M;
+                    if (r == ((a.sl % M) + M) % M)
+                        o += std::to_string(x) + " ";
+                }
+                return o;
+            });
+    {
+        // powermod(a, b, m), b integer or rational
+        static std::vector<QV> PB;
+        for (auto &p : std::vector<std::pair<std::string, std::string>>{{"-3", "1"}, {"-2", "1"}, {"-1", "1"}, {"0", "1"},  {"1", "1"}, {"2", "1"}, {"3", "1"},
+                                                                        {"5", "1"},  {"1", "2"},  {"-1", "2"}, {"1", "3"}, {"2", "3"}, {"3", "2"}})
+            PB.push_back(mkq(p.first, p.second));
+        Group g;
+        g.fn = "powermod";
+        g.n = (long long)PM_A.size() * PB.size() * PM_M.size();
+        g.f = [](long long k, int mode, Out &o) {
+            CI a = PM_A[k / (PB.size() * PM_M.size())], m = PM_M[k % PM_M.size()];
+            CQ b = PB[(k / PM_M.size()) % PB.size()];
+            if (mode == DESC) {
+                o.desc = "powermod(" + a.s + ", " + b.s + ", " + m.s + ")";
+                o.kinds = a.kind + "," + b.kind + "," + m.kind;
+                o.tags = m.z == 0 ? "m=0" : m.z < 0 ? "m<0" : "";
+            } else if (mode == EXEC) {
+                RCP<const Integer> r;
+                bool ok = powermod(outArg(r), IN(a), Rational::from_mpq(b.v), IN(m));
+                o.res = ok ? "1 " + K(r) : "0";
+            }
+        };
+        GS.push_back(g);
+        Group h = g;
+        h.fn = "powermod_list";
+        h.f = [](long long k, int mode, Out &o) {
+            CI a = PM_A[k / (PB.size() * PM_M.size())], m = PM_M[k % PM_M.size()];
+            CQ b = PB[(k / PM_M.size()) % PB.size()];
+            if (mode == DESC) {
+                o.desc = "powermod_list(" + a.s + ", " + b.s + ", " + m.s + ")";
+                o.kinds = a.kind + "," + b.kind + "," + m.kind;
+                o.tags = m.z == 0 ? "m=0" : m.z < 0 ? "m<0" : "";
+            } else if (mode == EXEC) {
+                std::vector<RCP<const Integer>> v;
+                powermod_list(v, IN(a), Rational::from_mpq(b.v), IN(m));
+                for (auto &p : v)
+                    o.res += S(p->as_integer_class()) + " ";
+            }
+        };
+        GS.push_back(h);
+    }
+    add_un("quadratic_residues", SM, small_tag,
+           [](CI a) {
+               if (a.sl > 120)
+                   return std::string("not-driven");
+               std::string o;
+               for (auto &x : quadratic_residues(*IN(a)))
+                   o += S(x) + " ";
+               return o;
+           },
+           nullptr);
+    add_bin("is_quad_residue", ORD_A, SM, [](CI, CI p) -> std::string { return p.z == 0 ? "p=0" : p.z < 0 ? "p<0" : ""; },
+            [](CI a, CI p) { return B(is_quad_residue(*IN(a), *IN(p))); },
+            [](CI a, CI p) -> std::string {
+                long P = std::labs(p.sl);
+                if (P == 0)
+                    return "";
+                long t = ((a.sl % P) + P) % P;
+                for (long x = 0; x < P; x++)
+                    if (x * x % P == t)
+                        return "1";
+                return "0";
+            });
+    add_tri("is_nth_residue", NRM_A, NRM_N, NRM_M, [](CI, CI, CI m) -> std::string { return m.z == 0 ? "m=0" : m.z < 0 ? "m<0" : ""; },
+            [](CI a, CI n, CI m) { return B(is_nth_residue(*IN(a), *IN(n), *IN(m))); },
+            [](CI a, CI n, CI m) -> std::string {
+                long M = std::labs(m.sl);
+                if (M == 0)
+                    return "0";
+                for (long x = 0; x < M; x++) {
+                    long r = 1 % M;
+                    for (long e = 0; e < n.sl; e++)
+                        r = r * x % M;
+                    if (r == ((a.sl % M) + M) % M)
+                        return "1";
+                }
+                return "0";
+            });
+    add_un("mobius", SM, small_tag, [](CI a) { return std::to_string(mobius(*IN(a))); }, nullptr);
+    add_un("mertens", U, nullptr, [](CI a) { return a.sl > 200 ? std::string("not-driven") : std::to_string(mertens(a.sl)); }, nullptr);
+    add_un("bernoulli", U, nullptr, [](CI a) { return a.sl > 60 ? std::string("not-driven") : K(bernoulli(a.sl)); }, nullptr);
+    for (long m : {1L, 2L, 3L, -1L, -2L, 0L})
+        add_un("harmonic(m=" + std::to_string(m) + ")", U, nullptr,
+               [m](CI a) { return a.sl > 60 ? std::string("not-driven") : K(harmonic(a.sl, m)); },
+               [m](CI a) -> std::string {
+                   if (a.sl > 60)
+                       return "not-driven";
+                   mpq_class s = 0;
+                   for (long i = 1; i <= a.sl; i++) {
+                       mpq_class t(zpow(i, std::labs(m)));
+                       s += m >= 0 ? mpq_class(1) / t : t;
+                   }
+                   return NK(s);
+               });
+    static AV SIDES = lst({"3", "4", "5", "6", "8", "100"});
+    add_bin("mp_polygonal_number,root", SIDES, A,
+            [](CI, CI n) -> std::string { return n.z <= 0 ? "!documented-n>0" : ""; },
+            [](CI s, CI n) { return S(mp_polygonal_number(s.v, n.v)) + " " + S(mp_principal_polygonal_root(s.v, n.v)); }, nullptr);
+    add_un("mp_perfect_power_decomposition", Rt, [](CI a) -> std::string { return (a.z <= 0 || mpz_sizeinbase(a.z.get_mpz_t(), 2) > 300) ? "!documented-positive-and-bounded" : ""; },
+           [](CI a) {
+               auto p = mp_perfect_power_decomposition(a.v, false), q = mp_perfect_power_decomposition(a.v, true);
+               return S(p.first) + "^" + S(p.second) + " " + S(q.first) + "^" + S(q.second);
+           },
+           nullptr);
+    add_un("primepi,primorial", SM, small_tag, [](CI a) { return K(primepi(IN(a))) + " " + (a.sl > 300 ? std::string() : K(primorial(IN(a)))); }, nullptr);
+}
+static void add_nn(const std::string &fn, const std::vector<NV> &X, const std::vector<NV> &Y, std::function<std::string(CN, CN)> pre,
+                   std::function<std::string(CN, CN)> ex, std::function<std::string(CN, CN)> rf)
+{
+    const std::vector<NV> *px = &X, *py = &Y;
+    Group g;
+    g.fn = fn;
+    g.n = (long long)X.size() * Y.size();
+    g.has_ref = (bool)rf;
+    g.f = [=](long long k, int mode, Out &o) {
+        CN a = (*px)[k / py->size()], b = (*py)[k % py->size()];
+        if (mode == DESC) {
+            o.desc = fn + "(" + a.s + ", " + b.s + ")";
+            o.kinds = a.kind + "," + b.kind;
+            o.nontriv = a.multi || b.multi;
+            tagskip(pre ? pre(a, b) : "", o);
+        } else if (mode == EXEC)
+            o.res = ex(a, b);
+        else if (rf)
+            o.ref = rf(a, b);
+    };
+    GS.push_back(g);
+}
+static void add_n(const std::string &fn, const std::vector<NV> &X, std::function<std::string(CN)> pre, std::function<std::string(CN)> ex,
+                  std::function<std::string(CN)> rf)
+{
+    const std::vector<NV> *px = &X;
+    Group g;
+    g.fn = fn;
+    g.n = X.size();
+    g.has_ref = (bool)rf;
+    g.f = [=](long long k, int mode, Out &o) {
+        CN a = (*px)[k];
+        if (mode == DESC) {
+            o.desc = fn + "(" + a.s + ")";
+            o.kinds = a.kind;
+            o.nontriv = a.multi;
+            tagskip(pre ? pre(a) : "", o);
+        } else if (mode == EXEC)
+            o.res = ex(a);
+        else if (rf)
+            o.ref = rf(a);
+    };
+    GS.push_back(g);
+}
+static mpq_class qpow(const mpq_class &b, long e) // b != 0 when e < 0
+{
+    mpq_class r(zpow(b.get_num(), std::labs(e)), zpow(b.get_den(), std::labs(e)));
+    if (e < 0) {
+        r = 1 / r;
+    }
+    r.canonicalize();
+    return r;
+}
+static std::string polykey(const char *cls, const std::vector<mpq_class> &c, bool rat)
+{
+    std::string o = std::string(cls) + "[S:x;";
+    for (size_t i = 0; i < c.size(); i++)
+        if (c[i] != 0)
+            o += std::to_string(i) + ":" + (rat ? c[i].get_num().get_str() + "/" + c[i].get_den().get_str() : c[i].get_num().get_str()) + ",";
+    return o + "]";
+}
+static void groups_symbolic()
+{
+    auto zd = [](CN, CN b) -> std::string { return b.z == 0 ? "zero-divisor" : ""; };
+    add_nn("Number::add", NA, NA, nullptr, [](CN a, CN b) { return K(a.v->add(*b.v)); }, [](CN a, CN b) { return NK(a.z + b.z); });
+    add_nn("Number::sub", NA, NA, nullptr, [](CN a, CN b) { return K(a.v->sub(*b.v)); }, [](CN a, CN b) { return NK(a.z - b.z); });
+    add_nn("Number::mul", NA, NA, nullptr, [](CN a, CN b) { return K(a.v->mul(*b.v)); }, [](CN a, CN b) { return NK(a.z * b.z); });
+    add_nn("Number::div", NA, NA, zd, [](CN a, CN b) { return K(a.v->div(*b.v)); },
+           [](CN a, CN b) { return b.z == 0 ? std::string() : NK(a.z / b.z); });
+    add_nn("Number::__cmp__,__eq__", NA, NA, nullptr,
+           [](CN a, CN b) {
+               int c = a.v->__cmp__(*b.v);
+               return std::to_string((c > 0) - (c < 0)) + B(a.v->__eq__(*b.v)) + B(eq(*a.v, *b.v));
+           },
+           nullptr);
+    add_nn("pow(Number,Number)", NA, EA,
+           [](CN a, CN e) -> std::string {
+               size_t bits = mpz_sizeinbase(a.z.get_num().get_mpz_t(), 2) + mpz_sizeinbase(a.z.get_den().get_mpz_t(), 2);
+               mpz_class en = abs(e.z.get_num());
+               if (bits * en.get_ui() > 60000)
+                   return "!result-too-large";
+               std::string t = e.z.get_den() == 1 ? "" : "rational-exp";
+               if (a.z == 0 && e.z < 0)
+                   t += (t.empty() ? "" : "+") + std::string("zero-base-negexp");
+               return t;
+           },
+           [](CN a, CN e) { return K(pow(a.v, e.v)); },
+           [](CN a, CN e) -> std::string {
+               if (e.z.get_den() != 1 || (a.z == 0 && e.z < 0))
+                   return "";
+               return NK(qpow(a.z, e.z.get_num().get_si()));
+           });
+    add_nn("Number::pow", NA, EA,
+           [](CN a, CN e) -> std::string {
+               size_t bits = mpz_sizeinbase(a.z.get_num().get_mpz_t(), 2) + mpz_sizeinbase(a.z.get_den().get_mpz_t(), 2);
+               mpz_class en = abs(e.z.get_num());
+               if (bits * en.get_ui() > 60000)
+                   return "!result-too-large";
+               return e.z.get_den() == 1 ? "" : "rational-exp";
+           },
+           [](CN a, CN e) { return K(a.v->pow(*e.v)); }, nullptr);
+    for (unsigned n : {1u, 2u, 3u, 5u})
+        add_n("Rational::nth_root(n=" + std::to_string(n) + "),is_perfect_power", NA,
+              [](CN a) -> std::string { return a.z.get_den() == 1 ? "!not-a-Rational" : a.z < 0 ? "neg" : ""; },
+              [n](CN a) {
+                  const Rational &r = down_cast<const Rational &>(*a.v);
+                  RCP<const Number> out;
+                  std::string o;
+                  if (a.z > 0 || n % 2 == 1) {
+                      bool ok = r.nth_root(outArg(out), n);
+                      o = ok ? "1 " + K(out) : "0";
+                  } else
+                      o = "-";
+                  if (a.z > 0)
+                      o += " " + B(r.is_perfect_power(false)) + B(r.is_perfect_power(true));
+                  return o;
+              },
+              nullptr);
+    add_n("floor,ceiling,truncate(Number)", NA, nullptr, [](CN a) { return K(floor(a.v)) + " " + K(ceiling(a.v)) + " " + K(truncate(a.v)); },
+          [](CN a) {
+              mpz_class f, c, t;
+              mpz_fdiv_q(f.get_mpz_t(), a.z.get_num().get_mpz_t(), a.z.get_den().get_mpz_t());
+              mpz_cdiv_q(c.get_mpz_t(), a.z.get_num().get_mpz_t(), a.z.get_den().get_mpz_t());
+              mpz_tdiv_q(t.get_mpz_t(), a.z.get_num().get_mpz_t(), a.z.get_den().get_mpz_t());
+              return "I:" + zs(f) + " I:" + zs(c) + " I:" + zs(t);
+          });
+    add_n("eval_double(Number)", NA, [](CN a) -> std::string { return mpq_class(a.z.get_d()) == a.z ? "exact" : "inexact"; },
+          [](CN a) { return dhex(eval_double(*a.v)); }, nullptr);
+    add_n("str(Number)", NA, nullptr, [](CN a) { return a.v->__str__(); },
+          [](CN a) { return a.z.get_den() == 1 ? a.z.get_num().get_str() : a.z.get_num().get_str() + "/" + a.z.get_den().get_str(); });
+    {
+        auto items = std::make_shared<std::vector<Item>>();
+        for (double d : {0.0, -0.0, 0.5, -0.5, 1.5, -1.5, 2.5, -2.5, 1e15 + 0.5, 9007199254740992.0, 18446744073709551616.0, -9223372036854775808.0,
+                         1e20, -1e20, 1e40, -1e300})
+            items->push_back(Item{hexd(d), std::fabs(d) >= 18446744073709551616.0 ? "multi-limb" : "small", std::fabs(d) >= 18446744073709551616.0,
+                                  [d] {
+                                      RCP<const Basic> x = real_double(d);
+                                      return K(floor(x)) + " " + K(ceiling(x)) + " " + K(truncate(x));
+                                  },
+                                  [d] {
+                                      mpz_class f, c, t;
+                                      mpz_set_d(f.get_mpz_t(), std::floor(d));
+                                      mpz_set_d(c.get_mpz_t(), std::ceil(d));
+                                      mpz_set_d(t.get_mpz_t(), std::trunc(d));
+                                      return "I:" + zs(f) + " I:" + zs(c) + " I:" + zs(t);
+                                  }});
+        add_items("floor,ceiling,truncate(RealDouble)", items);
+    }
+    RCP<const Symbol> x = symbol("x"), y = symbol("y"), z = symbol("z");
+    {
+        auto items = std::make_shared<std::vector<Item>>();
+        std::vector<std::pair<std::string, RCP<const Basic>>> es;
+        auto Ii = [](const char *s) { return integer(integer_class(std::string(s))); };
+        RCP<const Basic> t20 = Ii("100000000000000000000"), w2 = Ii("18446744073709551617");
+        for (int k = 2; k <= 6; k++) {
+            es.push_back({"(x+y+1)^" + std::to_string(k), pow(add(add(x, y), one), integer(k))});
+            es.push_back({"(2x-3y)^" + std::to_string(k), pow(sub(mul(integer(2), x), mul(integer(3), y)), integer(k))});
+            es.push_back({"(x/2+y/3)^" + std::to_string(k), pow(add(div(x, integer(2)), div(y, integer(3))), integer(k))});
+            if (k <= 4) {
+                es.push_back({"(10^20 x+(2^64+1) y)^" + std::to_string(k), pow(add(mul(t20, x), mul(w2, y)), integer(k))});
+                es.push_back({"((x+1)(x-1))^" + std::to_string(k), mul(pow(add(x, one), integer(k)), pow(sub(x, one), integer(k)))});
+                es.push_back({"(x+sqrt(2))^" + std::to_string(k), pow(add(x, sqrt(integer(2))), integer(k))});
+                es.push_back({"(x+y+z+1)^" + std::to_string(k), pow(add(add(add(x, y), z), one), integer(k))});
+                es.push_back({"(x-10^20/3)^" + std::to_string(k), pow(sub(x, div(t20, integer(3))), integer(k))});
+            }
+        }
+        es.push_back({"(1+x)^20", pow(add(one, x), integer(20))});
+        es.push_back({"(1-2x)^40", pow(sub(one, mul(integer(2), x)), integer(40))});
+        es.push_back({"(x+y)^-2", pow(add(x, y), integer(-2))});
+        es.push_back({"(2^64 x+2^64)^3", pow(add(mul(Ii("18446744073709551616"), x), Ii("18446744073709551616")), integer(3))});
+        for (auto &p : es) {
+            RCP<const Basic> e = p.second;
+            items->push_back(Item{"key " + p.first, "key", true, [e] { return K(expand(e)); }, nullptr});
+            items->push_back(Item{"str " + p.first, "str", true, [e] { return expand(e)->__str__(); }, nullptr});
+        }
+        add_items("expand", items);
+    }
+    {
+        auto items = std::make_shared<std::vector<Item>>();
+        static const int qs[] = {1, 2, 3, 4, 5, 6, 8, 10, 12};
+        for (int q : qs)
+            for (int p = -26; p <= 26; p++) {
+                RCP<const Basic> arg = mul(Rational::from_two_ints(p, q), pi);
+                std::string d = std::to_string(p) + "*pi/" + std::to_string(q);
+                items->push_back(Item{d, "small", false, [arg] { return K(sin(arg)) + " " + K(cos(arg)) + " " + K(tan(arg)); }, nullptr});
+            }
+        for (auto &pq : std::vector<std::pair<std::string, long>>{{"100000000000000000001", 3}, {"-18446744073709551617", 4}, {"18446744073709551619", 6},
+                                                                  {"340282366920938463463374607431768211457", 12}, {"-100000000000000000000", 5}}) {
+            RCP<const Basic> arg = mul(Rational::from_two_ints(*integer(integer_class(pq.first)), *integer(pq.second)), pi);
+            items->push_back(
+                Item{pq.first + "*pi/" + std::to_string(pq.second), "multi-limb", true, [arg] { return K(sin(arg)) + " " + K(cos(arg)) + " " + K(tan(arg)); }, nullptr});
+        }
+        add_items("sin,cos,tan(r*pi)", items);
+    }
+    {
+        // univariate polynomials
+        static std::vector<std::vector<std::string>> CV = {{"1", "1"},
+                                                           {"1", "2", "1"},
+                                                           {"7", "7", "7"},
+                                                           {"-1", "0", "1"},
+                                                           {"18446744073709551617", "-1"},
+                                                           {"100000000000000000000", "0", "-100000000000000000000", "3"},
+                                                           {"0", "0", "5"},
+                                                           {"1"},
+                                                           {"-3"},
+                                                           {"2147483648", "2147483648", "2147483648"},
+                                                           {"9223372036854775807", "-9223372036854775808", "1"},
+                                                           {"255", "255", "255", "255"},
+                                                           {"-7", "7", "-7"},
+                                                           {"0"}};
+        auto mkp = [x](const std::vector<std::string> &c) {
+            std::vector<integer_class> v;
+            for (auto &s : c)
+                v.push_back(integer_class(s));
+            return UIntPoly::from_vec(x, v);
+        };
+        auto mkr = [x](const std::vector<std::string> &c, long den) {
+            std::vector<rational_class> v;
+            for (auto &s : c) {
+                rational_class q = rational_class(integer_class(s), integer_class(den));
+                canonicalize(q);
+                v.push_back(q);
+            }
+            return URatPoly::from_vec(x, v);
+        };
+        auto cq = [](const std::vector<std::string> &c, long den) {
+            std::vector<mpq_class> v;
+            for (auto &s : c) {
+                mpq_class q(mpz_class(s, 10), den);
+                q.canonicalize();
+                v.push_back(q);
+            }
+            return v;
+        };
+        auto items = std::make_shared<std::vector<Item>>();
+        auto cvs = [](const std::vector<std::string> &c) {
+            std::string o = "[";
+            for (auto &s : c)
+                o += s + ",";
+            return o + "]";
+        };
+        for (size_t i = 0; i < CV.size(); i++)
+            for (size_t j = 0; j < CV.size(); j++) {
+                const auto &a = CV[i], &b = CV[j];
+                bool multi = false;
+                for (auto &s : a)
+                    multi |= s.size() > 19;
+                for (auto &s : b)
+                    multi |= s.size() > 19;
+                std::vector<mpq_class> qa = cq(a, 1), qb = cq(b, 1), prod(qa.size() + qb.size(), 0), sum(std::max(qa.size(), qb.size()), 0),
+                                       dif(std::max(qa.size(), qb.size()), 0);
+                for (size_t u = 0; u < qa.size(); u++)
+                    for (size_t w = 0; w < qb.size(); w++)
+                        prod[u + w] += qa[u] * qb[w];
+                for (size_t u = 0; u < sum.size(); u++) {
+                    mpq_class ca = u < qa.size() ? qa[u] : mpq_class(0), cb = u < qb.size() ? qb[u] : mpq_class(0);
+                    sum[u] = ca + cb;
+                    dif[u] = ca - cb;
+                }
+                std::string d = cvs(a) + "," + cvs(b);
+                items->push_back(Item{"UIntPoly mul " + d, "UIntPoly-mul", multi, [=] { return K(mul_upoly(*mkp(a), *mkp(b))); },
+                                      [=] { return polykey("UIntPoly", prod, false); }});
+                items->push_back(Item{"UIntPoly add,sub " + d, "UIntPoly-add", multi,
+                                      [=] { return K(add_upoly(*mkp(a), *mkp(b))) + " " + K(sub_upoly(*mkp(a), *mkp(b))); },
+                                      [=] { return polykey("UIntPoly", sum, false) + " " + polykey("UIntPoly", dif, false); }});
+                // rational polynomials a/6, b/35
+                std::vector<mpq_class> ra = cq(a, 6), rb = cq(b, 35), rprod(ra.size() + rb.size(), 0), rsum(std::max(ra.size(), rb.size()), 0);
+                for (size_t u = 0; u < ra.size(); u++)
+                    for (size_t w = 0; w < rb.size(); w++)
+                        rprod[u + w] += ra[u] * rb[w];
+                for (size_t u = 0; u < rsum.size(); u++)
+                    rsum[u] = (u < ra.size() ? ra[u] : mpq_class(0)) + (u < rb.size() ? rb[u] : mpq_class(0));
+                items->push_back(Item{"URatPoly mul,add " + cvs(a) + "/6," + cvs(b) + "/35", "URatPoly", multi,
+                                      [=] { return K(mul_upoly(*mkr(a, 6), *mkr(b, 35))) + " " + K(add_upoly(*mkr(a, 6), *mkr(b, 35))); },
+                                      [=] { return polykey("URatPoly", rprod, true) + " " + polykey("URatPoly", rsum, true); }});
+            }
+        for (size_t i = 0; i < CV.size(); i++) {
+            const auto &a = CV[i];
+            if (a.size() == 1 && a[0] == "0")
+                continue; // pow_upoly and eval of the zero polynomial segfault on every backend (empty dict; not a backend issue, reported)
+            bool multi = false;
+            for (auto &s : a)
+                multi |= s.size() > 19;
+            for (unsigned k : {1u, 2u, 3u, 5u}) {
+ // k = 0 never terminates in ODictWrapper::pow on every backend (not a backend issue; reported separately)
+                std::vector<mpq_class> qa = cq(a, 1), r = {mpq_class(1)};
+                for (unsigned e = 0; e < k; e++) {
+                    std::vector<mpq_class> n(r.size() + qa.size(), 0);
+                    for (size_t u = 0; u < r.size(); u++)
+                        for (size_t w = 0; w < qa.size(); w++)
+                            n[u + w] += r[u] * qa[w];
+                    r = n;
+                }
+                items->push_back(Item{"UIntPoly pow " + cvs(a) + "^" + std::to_string(k), "UIntPoly-pow", multi,
+                                      [=] { return K(pow_upoly(*mkp(a), k)); }, [=] { return polykey("UIntPoly", r, false); }});
+            }
+            for (const char *pt : {"0", "1", "-2", "100000000000000000000"}) {
+                std::string ps = pt;
+                items->push_back(Item{"UIntPoly eval " + cvs(a) + " at " + ps, "UIntPoly-eval", multi || ps.size() > 19,
+                                      [=] { return S(mkp(a)->eval(integer_class(ps))); },
+                                      [=] {
+                                          mpz_class v = 0, X(ps, 10);
+                                          for (size_t u = a.size(); u-- > 0;)
+                                              v = v * X + mpz_class(a[u], 10);
+                                          return zs(v);
+                                      }});
+            }
+        }
+        add_items("polys", items);
+    }
+    {
+        auto items = std::make_shared<std::vector<Item>>();
+        std::vector<std::pair<std::string, RCP<const Basic>>> fs
+            = {{"sin(x)", sin(x)},           {"cos(x)", cos(x)},         {"exp(x)", exp(x)},      {"1/(1-x)", div(one, sub(one, x))},
+               {"log(1+x)", log(add(one, x))}, {"tan(x)", tan(x)},         {"sqrt(1+x)", sqrt(add(one, x))},
+               {"1/(3-2x)^2", pow(sub(integer(3), mul(integer(2), x)), integer(-2))},
+               {"exp(x)/(1+x/7)", div(exp(x), add(one, div(x, integer(7))))}, {"atan(x)", atan(x)}};
+        for (auto &f : fs)
+            for (unsigned prec : {6u, 12u}) {
+                RCP<const Basic> e = f.second;
+                items->push_back(Item{f.first + ", prec " + std::to_string(prec), "series", true, [e, x, prec] { return K(series(e, x, prec)->as_basic()); },
+                                      nullptr});
+            }
+        add_items("series", items);
+    }
+    {
+        auto items = std::make_shared<std::vector<Item>>();
+        std::vector<std::vector<std::string>> ms = {{"2", "1", "0", "1", "3", "1", "0", "1", "4"},
+                                                    {"18446744073709551617", "1", "0", "1", "100000000000000000000", "-1", "7", "1", "4294967297"},
+                                                    {"1", "2", "3", "4", "5", "6", "7", "8", "9"},
+                                                    {"-3", "100000000000000000039", "5", "2", "-9223372036854775808", "1", "1", "1", "1"}};
+        for (auto &m : ms) {
+            std::string d = "[";
+            for (auto &s : m)
+                d += s + ",";
+            d += "]";
+            items->push_back(Item{"det,inv 3x3 " + d, "matrix", true,
+                                  [m] {
+                                      vec_basic v;
+                                      for (auto &s : m)
+                                          v.push_back(integer(integer_class(s)));
+                                      DenseMatrix A(3, 3, v), Bm(3, 3);
+                                      std::string o = K(A.det());
+                                      try {
+                                          A.inv(Bm);
+                                          for (auto &e : Bm.as_vec_basic())
+                                              o += " " + K(e);
+                                      } catch (SymEngineException &) {
+                                          o += " singular";
+                                      }
+                                      return o;
+                                  },
+                                  nullptr});
+        }
+        add_items("matrix", items);
+    }
+    {
+        auto items = std::make_shared<std::vector<Item>>();
+        for (const char *s : {"12345678901234567890123", "-12345678901234567890123", "1/3", "2**100", "10**20/3", "18446744073709551616*x", "010",
+                              "0100000000000000000000000000", "1e2", "3/18446744073709551617", "(2**64+1)**2", "x**2 + 100000000000000000000*x"}) {
+            std::string str = s;
+            items->push_back(Item{str, str[0] == '0' ? "leading-zero" : "plain", true, [str] { return K(parse(str)); }, nullptr});
+        }
+        add_items("parse", items);
+    }
 }
 // @@MORE@@
 
@@ -1430,6 +2351,9 @@ static void build_groups(bool T)
     groups_raw_pow();
     groups_raw_conv();
     groups_raw_rational();
+    groups_public_integer();
+    groups_public_ntheory();
+    groups_symbolic();
     // @@CALLS@@
     OFF.clear();
     NCALLS = 0;
